@@ -11,7 +11,7 @@ import json
 
 from ..api import J, call
 from .. import gen, jwsprod as P
-from ..jwsgen import JWS_ALGS, alg_name
+from ..jwsgen import JWS_ALGS, alg_name, key_for as key_for_alg
 from refjose.prim import b64u_dec
 
 LEVEL = "exploration"
@@ -374,6 +374,36 @@ def unusual_rsa_roundtrip(ctx, rng):
                         ctx.violation(f"roundtrip-fails:{d.key}", f"{a} token signed with an RSA key {kind} ({rep}) does not verify with its public key: {d.exc!r}", {**case, "token": o.value})
 
 
+def members_sharing_one_header_dict(ctx, rng):
+    """several signature members written with one and the same unprotected header dict (h = {"typ": ...}; members = [{"protected": p1, "header": h}, {"protected": p2,
+    "header": h}]) and a key set: each member gets the kid of its own key, the JWS verifies against the public set, the caller's dict is its own afterwards"""
+    j = J.load()
+    payload = b"c03 one header dict"
+    for algs in (("HS256", "ES256"), ("ES256", "RS256", "EdDSA:Ed25519"), ("HS256", "HS256")):
+        ctx.ev()
+        keys = [key_for_alg(a) for a in algs]
+        ks = j.KeySet([j.key(k) for k in keys])
+        pubs = j.KeySet([j.key(gen.public_jwk(k) if k["kty"] != "oct" else k) for k in keys])
+        allow = sorted({alg_name(a) for a in algs})
+        if len({k["kty"] for k in keys}) != len(keys):
+            continue      # two keys of one type: which one is picked is open
+        h = {"typ": "demo"}
+        members = [{"protected": {"alg": alg_name(a)}, "header": h} for a in algs]
+        o = call(j.jws.serialize_json, members, payload, ks, algorithms=allow)
+        ctx.count("produced")
+        ctx.count("shared_member_header_cases")
+        ctx.nontrivial(("shared-member-header", algs))
+        case = {"shared_member_header": True, "algs": list(algs)}
+        if not o.ok:
+            ctx.violation(f"produce-fails:{o.key}:members-sharing-one-header-dict", f"serialize_json with {len(algs)} members that share one unprotected header dict and a key set: {o.exc!r}", case)
+            continue
+        d = call(j.jws.deserialize_json, copy.deepcopy(o.value), pubs, algorithms=allow)
+        ctx.count("verified")
+        if not d.ok or d.value.payload != payload:
+            ctx.violation(f"roundtrip-fails:{d.key}:members-sharing-one-header-dict", f"the JWS of {len(algs)} members sharing one unprotected header dict does not verify against the "
+                          f"public key set: {d.exc!r}; headers emitted {[x.get('header') for x in o.value['signatures']]}", {**case, "token": o.value})
+
+
 def run_shard(ctx):
     J.load()
     rng = ctx.rng
@@ -385,6 +415,8 @@ def run_shard(ctx):
         headers_equal_as_python_values(ctx, rng)
     if ctx.shard == 5:
         unusual_rsa_roundtrip(ctx, rng)
+    if ctx.shard == 6:
+        members_sharing_one_header_dict(ctx, rng)
     forced = forced_cells(ctx.tier)
     for idx, kw in enumerate(forced):
         if idx % ctx.nshards != ctx.shard:
